@@ -56,11 +56,14 @@ func c15Goid() int64 {
 }
 
 // c15Quiescent reports whether every other goroutine of the process is
-// blocked (two consecutive scans).  Used only after a wait timed out, to tell a
+// blocked (three consecutive scans).  Used only after a wait timed out, to tell a
 // deadlock from a slow machine.
+var c15BlockedStates = []string{"chan receive", "chan send", "select", "semacquire", "sync.", "IO wait",
+	"GC worker (idle)", "GC sweep wait", "GC scavenge wait", "finalizer wait", "force gc (idle)", "cleanup wait"}
+
 func c15Quiescent() bool {
-	buf := make([]byte, 1<<20)
-	for round := 0; round < 2; round++ {
+	buf := make([]byte, 8<<20)
+	for round := 0; round < 3; round++ {
 		n := runtime.Stack(buf, true)
 		first := true
 		for _, blk := range bytes.Split(buf[:n], []byte("\n\n")) {
@@ -76,7 +79,14 @@ func c15Quiescent() bool {
 				continue
 			}
 			st := blk[i+1:]
-			if bytes.HasPrefix(st, []byte("running")) || bytes.HasPrefix(st, []byte("runnable")) || bytes.HasPrefix(st, []byte("syscall")) {
+			blocked := false
+			for _, w := range c15BlockedStates {
+				if bytes.HasPrefix(st, []byte(w)) {
+					blocked = true
+					break
+				}
+			}
+			if !blocked { // running, runnable, preempted, syscall, GC assist, ...
 				return false
 			}
 		}
@@ -89,23 +99,32 @@ func c15Quiescent() bool {
 // c15Wait waits for done; returns false only if the process is deadlocked
 // (nothing runnable) or 30 s have passed.
 func c15Wait(done <-chan struct{}) bool {
-	for k := 0; k < 20; k++ {
+	start := time.Now()
+	for time.Since(start) < 30*time.Second {
 		select {
 		case <-done:
 			return true
-		case <-time.After(1500 * time.Millisecond):
+		case <-time.After(25 * time.Millisecond):
 		}
 		if c15Quiescent() {
 			select {
 			case <-done:
 				return true
 			default:
+				c15Deadlocks.Add(1)
 				return false
 			}
 		}
 	}
+	c15Deadlocks.Add(1)
 	return false
 }
+
+// Goroutines of a deadlocked case stay parked for the rest of the process;
+// after a few of them the remaining cases of the run are not executed.
+var c15Deadlocks atomic.Int32
+
+const c15MaxDeadlocks = 12
 
 func c15Code(err error) int {
 	return int(status.Code(err))
@@ -627,6 +646,9 @@ func (c15) Exec(in Sx) (Sx, bool) {
 	if in.IsAtom || !in.Nth(0).IsAtom {
 		return Sx{}, false
 	}
+	if c15Deadlocks.Load() >= c15MaxDeadlocks {
+		return Sx{}, false
+	}
 	switch in.Nth(0).Z {
 	case 1:
 		return c15ExecProg(in)
@@ -807,7 +829,7 @@ func c15ExecMux(in Sx) (Sx, bool) {
 	done := make(chan struct{})
 	go func() { wg.Wait(); close(done) }()
 	terminated := 0
-	deadline := time.Now().Add(1500 * time.Millisecond)
+	deadline := time.Now().Add(25 * time.Millisecond)
 drain:
 	for {
 		for i := 0; i < n; i++ {
@@ -827,9 +849,24 @@ drain:
 				}
 			}
 			if !idle && c15Quiescent() {
-				break // every unfinished consumer is parked inside the library
+				for i := 0; i < n; i++ {
+					if cons[i].state.Load() == 0 {
+						idle = true // became idle meanwhile: it waits for us, not for the library
+					}
+				}
+				if idle {
+					deadline = time.Now().Add(25 * time.Millisecond)
+					continue
+				}
+				select {
+				case <-done:
+					terminated = 1
+				default:
+					c15Deadlocks.Add(1) // every unfinished consumer is parked inside the library
+				}
+				break drain
 			}
-			deadline = time.Now().Add(1500 * time.Millisecond)
+			deadline = time.Now().Add(25 * time.Millisecond)
 		}
 	}
 	out := []Sx{AI(int(src.closes.Load())), AI(terminated)}
